@@ -42,6 +42,50 @@ def _flag_ops(fn_node, enum_members):
     return out
 
 
+def check_negative_zero_slices(model, rep, rule, only_prefix=None):
+    """`x[-n:]` with n == 0 is the WHOLE sequence and `x[:-n]` with n == 0 is the EMPTY one - the opposite of what "the last n" / "all but the
+    last n" mean.  Every such slice with a non-constant n must be reached only when n != 0 (dominating test on n)."""
+    n_neg = 0
+    for f in sorted(model.all_functions(), key=lambda g: g.qualname):
+        if only_prefix and not f.qualname.startswith(only_prefix):
+            continue
+        negs = []
+        for x in ast.walk(f.node):
+            if isinstance(x, ast.Subscript) and isinstance(x.slice, ast.Slice) and x.slice.step is None:
+                lo, up = x.slice.lower, x.slice.upper
+                if up is None and isinstance(lo, ast.UnaryOp) and isinstance(lo.op, ast.USub) and not isinstance(lo.operand, ast.Constant):
+                    negs.append((x, lo.operand, "lower"))
+                elif lo is None and isinstance(up, ast.UnaryOp) and isinstance(up.op, ast.USub) and not isinstance(up.operand, ast.Constant):
+                    negs.append((x, up.operand, "upper"))
+        if not negs:
+            continue
+        cfg = CFG(f.node, implicit_exc=False)
+        for (x, opnd, side) in negs:
+            n_neg += 1
+            e = src(opnd)
+            node = next((n for n in cfg.stmts() if any(y is x for y in own_nodes(n.ast))), None)
+            okk = False
+            if node is not None:
+                for t_ in cfg.nodes:
+                    if t_.kind != "test":
+                        continue
+                    nc = normalise_compare(t_.ast.test)
+                    if nc[0] != "atom":
+                        continue
+                    a = nc[1]
+                    if a[0] != e:
+                        continue
+                    if (a[1], a[2]) in (("==", "0"), ("falsy", ""), ("<=", "0"), ("<", "1")) and cfg.edge_dominated(node.id, {(t_.id, "f")}):
+                        okk = True
+                    if (a[1], a[2]) in ((">", "0"), ("truthy", ""), (">=", "1"), ("!=", "0")) and cfg.edge_dominated(node.id, {(t_.id, "t")}):
+                        okk = True
+            what = "the WHOLE sequence, not the empty one" if side == "lower" else "the EMPTY sequence, not the whole one"
+            rep.check(okk, rule, f.qualname, where(f, x), f"`{src(x)[:50]}` is reached only with `{e}` != 0",
+                      f"`{src(x)[:60]}`: when `{e[:40]}` is 0 the slice is {what} (e.g. the apex of a relativized zone, or relativizing to the empty origin)",
+                      stmt="neg-slice " + src(x)[:40])
+    return n_neg
+
+
 def run(model, rep, tier):
     flags_cls = model.cls("dns.btreezone.NodeFlags")
     members = {k for k, v in model.enum_members(flags_cls).items() if isinstance(v, int)}
@@ -78,9 +122,21 @@ def run(model, rep, tier):
                 tests = [t for t in cfg.nodes if t.kind == "test" and " ".join(src(t.ast.test).split()) == want[flg]]
                 okk = bool(tests) and cfg.edge_dominated(n.id, {(t.id, "t") for t in tests}) and isinstance(n.ast.op, ast.BitOr)
                 rep.check(okk, "R-20.1", mc.qualname, where(mc, n.ast), f"{flg} set exactly under `{want[flg]}`", f"{flg} is not set under `{want[flg]}`", stmt=f"derive {flg}")
+    # version classes consult their OWN origin: the zone's origin is None until the first commit (origin taken from $ORIGIN while loading)
+    n_zo = 0
+    for ci in [c for c in model.classes.values() if c.module.name in ("dns.btreezone", "dns.zone") and any(b.name == "Version" for b in c.mro)]:
+        for mname, mf in ci.methods.items():
+            for x in ast.walk(mf.node):
+                if isinstance(x, ast.Attribute) and x.attr == "origin" and src(x.value) in ("self.zone", "zone"):
+                    n_zo += 1
+                    okk = mname == "__init__" and ci.qualname == "dns.zone.WritableVersion"
+                    rep.check(okk, "R-20.1", mf.qualname, where(mf, x), "the zone origin is only copied into the writable version at construction",
+                              f"`{src(x)}` is read in a version method: during the initial load of a zone whose origin comes from $ORIGIN it is still None, so the apex is not recognised "
+                              "(no ORIGIN flag; its NS makes it a delegation and every other name glue)", stmt="zone-origin-read")
+    rep.floor("R-20.1-zone-origin", n_zo, 1)
     io = model.func(f"{WV}._is_origin")
     t = " ".join(src(io.node).split())
-    rep.check(pat.ends_with(io.node, "if self.zone.relativize:\n    return name == dns.name.empty\nelse:\n    return name == self.zone.origin"), "R-20.1", io.qualname, where(io, io.node),
+    rep.check(pat.ends_with(io.node, "if self.zone.relativize:\n    return name == dns.name.empty\nelse:\n    return name == self.origin"), "R-20.1", io.qualname, where(io, io.node),
               "_is_origin compares with empty (relativized) or the zone origin", "_is_origin no longer compares with (empty | origin)", stmt="is-origin")
 
     # ---------------------------------------------------------------- R-20.2
@@ -204,36 +260,8 @@ def run(model, rep, tier):
             if isinstance(c, ast.Call) and dotted(c.func) == "sorted":
                 rep.bad("R-20.3", f.qualname, where(f, c), "sorted() in the B-tree version: order must come from the tree", stmt="sorted")
     # ------------------------------------------------------------ R-20.4
-    n_neg = 0
-    for f in sorted(model.all_functions(), key=lambda g: g.qualname):
-        negs = [x for x in ast.walk(f.node) if isinstance(x, ast.Subscript) and isinstance(x.slice, ast.Slice) and x.slice.upper is None and isinstance(x.slice.lower, ast.UnaryOp)
-                and isinstance(x.slice.lower.op, ast.USub) and not isinstance(x.slice.lower.operand, ast.Constant)]
-        if not negs:
-            continue
-        cfg = CFG(f.node, implicit_exc=False)
-        for x in negs:
-            n_neg += 1
-            e = src(x.slice.lower.operand)
-            node = next((n for n in cfg.stmts() if any(y is x for y in own_nodes(n.ast))), None)
-            okk = False
-            if node is not None:
-                for t_ in cfg.nodes:
-                    if t_.kind != "test":
-                        continue
-                    nc = normalise_compare(t_.ast.test)
-                    if nc[0] != "atom":
-                        continue
-                    a = nc[1]
-                    if a[0] != e:
-                        continue
-                    if (a[1], a[2]) in (("==", "0"), ("falsy", ""), ("<=", "0"), ("<", "1")) and cfg.edge_dominated(node.id, {(t_.id, "f")}):
-                        okk = True
-                    if (a[1], a[2]) in ((">", "0"), ("truthy", ""), (">=", "1"), ("!=", "0")) and cfg.edge_dominated(node.id, {(t_.id, "t")}):
-                        okk = True
-            rep.check(okk, "R-20.4", f.qualname, where(f, x), f"`{src(x)[:50]}` is reached only with `{e}` != 0",
-                      f"`{src(x)[:60]}`: when `{e[:40]}` is 0 the slice `[-0:]` is the WHOLE sequence, not the empty one (in a relativized zone a name whose closest encloser is the apex gets itself as closest encloser)",
-                      stmt="neg-slice " + src(x)[:40])
-    rep.floor("R-20.4-negslices", n_neg, 1)
+    n_neg = check_negative_zero_slices(model, rep, "R-20.4")
+    rep.floor("R-20.4-negslices", n_neg, 2)
     bf = model.func("dns.btreezone.ImmutableVersion.bounds")
     ret = [c for c in ast.walk(bf.node) if isinstance(c, ast.Call) and src(c.func) == "Bounds"]
     if len(ret) != 1 or len(ret[0].args) < 3:
@@ -306,6 +334,8 @@ def _blocks(fn):
 
 
 WITNESSES = [
+    {"id": "c20-is-origin-uses-zone-origin", "rule": "R-20.1", "file": "dns/btreezone.py", "expect": "fires",
+     "old": "            return name == self.origin", "new": "            return name == self.zone.origin"},
     {"id": "c20-closest-encloser-negative-zero-slice", "rule": "R-20.4", "file": "dns/btreezone.py", "expect": "fires",
      "old": "        _, closest_encloser = name.split(\n            max(left_comparison[2], right_comparison[2])\n        )\n",
      "new": "        common = max(left_comparison[2], right_comparison[2])\n        closest_encloser = dns.name.Name(name[-common:])\n"},
